@@ -231,7 +231,11 @@ pub fn build_request(
             "{} {} {}",
             constants::AUTHORIZATION_SCHEME,
             key_guid,
-            helpers::compute_signature(&key, input_to_sign.as_slice())?
+            helpers::compute_signature(&key, input_to_sign.as_slice()).map_err(|e| match e {
+                // callers log this error and put it into status messages: keep the key out of it
+                Error::Hex(_, e) => Error::Hex("<withheld>".to_string(), e),
+                e => e,
+            })?
         );
         request_builder = request_builder.header(
             constants::AUTHORIZATION_HEADER.to_string(),
